@@ -89,15 +89,40 @@ theorem handlers_are_modelled :
     ∧ Gen.Netref.handlerArity.lookup Gen.Netref.handleCtxexit = some (2, 2) := by
   decide
 
-/-- names the netref object keeps to itself: of `LOCAL_ATTRS` only `__doc__` is forwarded; `DELETED_ATTRS` raise -/
-theorem local_names_not_forwarded :
-    Forward.localAttrs.all (fun n => match wireOf (.getattr n) with
-      | .local_ _ => n != nameOf "__doc__"
-      | .request h _ => n == nameOf "__doc__" && h == Gen.Netref.handleGetattr) = true
-    ∧ Forward.deletedAttrs.all (fun n => match wireOf (.getattr n) with
-      | .local_ .attributeError => true
-      | _ => false) = true := by
-  decide
+/-- does the model treat one row `(name, get, set, del)` of the observed table the way the code was seen to -/
+def localRowAgrees (row : String × String × String × String) : Bool :=
+  let n := nameOf row.1
+  (match row.2.1 with
+   | "local" => attrClass n == .localHeld
+   | "local-unless-class-unknown" => attrClass n == .klass
+   | "raises" => attrClass n == .deleted
+   | "remote" => attrClass n == .doc
+   | "local-then-remote" => attrClass n == .localMissing
+   | _ => false)
+  && (match row.2.1, wireOf (.getattr n) with
+   | "local", .local_ .objectAttr => true
+   | "local-unless-class-unknown", .local_ .classDescriptor => true
+   | "raises", .local_ .attributeError => true
+   | "remote", .request h [.imm (.str m)] => h == Gen.Netref.handleGetattr && m == n
+   | "local-then-remote", .request h [.imm (.str m)] => h == Gen.Netref.handleGetattr && m == n
+   | _, _ => false)
+  && row.2.2.1 == "local" && row.2.2.2 == "local" && Forward.localAttrs.contains n
+
+/-- **names the netref object keeps to itself, as observed.**  `Gen.Netref.localAttrBehaviour` lists, for EVERY name of
+`LOCAL_ATTRS`, what reading / writing / deleting it on a real proxy did against a recording connection; the model agrees
+row by row: read locally (the netref object holds the name), `__class__` by the class descriptor, `DELETED_ATTRS` raise,
+`__doc__` always forwarded, and the names the netref object does NOT hold (`__dict__`, `__methods__`, `__metaclass__`,
+`__getattr__`) forwarded as ONE `HANDLE_GETATTR` of that name - the try-local-then-remote branch; writing and deleting any
+of them never leaves the proxy.  (`__class__` of a class that cannot be imported on the proxy's side is asked remotely:
+`class_query`.) -/
+theorem local_names_behave_as_observed :
+    Gen.Netref.localAttrBehaviour.all localRowAgrees = true
+    ∧ Gen.Netref.localAttrBehaviour.map (·.1) = Gen.Netref.localAttrs
+    ∧ (∀ n v, Forward.localAttrs.contains n = true → wireOf (.setattr n v) = .local_ .objectAttr)
+    ∧ (∀ n, Forward.localAttrs.contains n = true → wireOf (.delattr n) = .local_ .objectAttr) := by
+  refine ⟨by decide, by decide, ?_, ?_⟩
+  · intro n v h; simp only [wireOf, h]; rfl
+  · intro n h; simp only [wireOf, h]; rfl
 
 /-! ### forwarding -/
 
